@@ -169,6 +169,11 @@ class Grid2D(GridObject):
         u_ind = np.any(selected_centroids, axis=0)
         v_ind = np.any(selected_centroids, axis=1)
 
+        if not inverse and np.any(selected_centroids):
+            # the sub-grid spans from the first to the last selected column and row
+            u_ind[np.argmax(u_ind) : u_ind.size - np.argmax(u_ind[::-1])] = True
+            v_ind[np.argmax(v_ind) : v_ind.size - np.argmax(v_ind[::-1])] = True
+
         indices = np.kron(v_ind, u_ind).flatten()
 
         if not np.any(indices):
